@@ -277,6 +277,9 @@ def tracked_method(func):
         obj = self.obj_ref()
         attr = self.attr
         if obj is not None:
+            # refuse first (session is over, object was deleted, other thread's session): a refused change must change nothing
+            check = getattr(obj, '_check_attr_change_', None)
+            if check is not None: check(attr)
             args = tuple(TrackedValue.make(obj, attr, arg) for arg in args)
             if kwargs: kwargs = {key: TrackedValue.make(obj, attr, value) for key, value in kwargs.items()}
         try:
